@@ -184,6 +184,12 @@ func inlineErrGuardFacts0(c *ssa.Call, isNil bool) []Fact {
 		case *ssa.BinOp, *ssa.Call:
 			if sv := substInto(c, h, cf.Cond, 0); sv != nil {
 				out = append(out, Fact{sv, cf.Truth, true})
+				// a named test inside the named test
+				if sc, ok := sv.(*ssa.Call); ok && sc != c && !sc.Call.IsInvoke() {
+					if g := sc.Call.StaticCallee(); g != nil && g != h && inModule(g) && purePredicate(g) {
+						out = append(out, inlinePredicateFacts(sc, cf.Truth)...)
+					}
+				}
 			}
 		}
 	}
@@ -208,7 +214,24 @@ func realFacts(fs []Fact) []Fact {
 // from its parameters: comparisons with constants and with each other, len
 // and loads of fields of parameters, !, && and ||, and calls of math.IsNaN /
 // math.IsInf on such values.
+var purePredMemo = map[*ssa.Function]int{}
+
 func purePredicate(fn *ssa.Function) bool {
+	if fn == nil {
+		return false
+	}
+	if r, ok := purePredMemo[fn]; ok {
+		return r == 1
+	}
+	purePredMemo[fn] = 2 // recursion guard
+	if purePredicate0(fn) {
+		purePredMemo[fn] = 1
+		return true
+	}
+	return false
+}
+
+func purePredicate0(fn *ssa.Function) bool {
 	if fn == nil || fn.Blocks == nil || len(fn.Blocks) > 10 || fn.Signature.Results().Len() != 1 {
 		return false
 	}
@@ -236,6 +259,10 @@ func purePredicate(fn *ssa.Function) bool {
 					continue
 				}
 				if q := calleeQualified(&x.Call); q == "math.IsNaN" || q == "math.IsInf" || q == "math.Abs" || q == "math.Trunc" {
+					continue
+				}
+				// another named test of the module (`res.failed()`)
+				if g := x.Call.StaticCallee(); g != nil && !x.Call.IsInvoke() && inModule(g) && purePredicate(g) {
 					continue
 				}
 				return false
